@@ -181,6 +181,15 @@ def check(run):
         cen = [A, B, A, B] if n % 2 == 0 else [A, B, B, A]
         specs = [ShellSpec(l, cen[i], [e[i % 2]], [[1.0]]) for i, l in enumerate(ls)]
         quartet_case(run, specs, "general", "underflowing pair factors")
+    # contracted shells holding a tight and a diffuse primitive on well separated atoms: the tight-tight product factor underflows to
+    # exactly 0, the diffuse-diffuse one is 1e-3 .. 1e-4 — as first pair, as second pair, and against itself
+    from checks.common import far_diffuse_pair
+    for n, R_ in enumerate((13.0, 14.0) if quick else (13.0, 14.0, 13.5, 17.0)):
+        pair = far_diffuse_pair(rng, 0, n % 2, R_, tight=True)
+        pair = [p_.copy(exps=[p_.exps[0], core.snap(0.1 + 0.02 * (n % 3), 10)], sph=False) for p_ in pair]
+        third = ShellSpec(0, [x + 0.7 for x in pair[0].center], [core.rand_exp(rng, 0.3, 1.5)], [[1.0]])
+        for arrangement in ((pair[0], pair[1], pair[0], pair[1]), (pair[0], pair[1], third, third), (third, third, pair[0], pair[1]), (pair[1], pair[0], third, pair[0])):
+            quartet_case(run, list(arrangement), "general", "tight+diffuse contracted shells %g bohr apart" % R_)
     # nearly coincident centres within the bra and between bra and ket
     from checks.common import NEAR_LADDER
     for n, ls in enumerate([(0, 1, 0, 0), (1, 1, 0, 1), (0, 2, 1, 0), (1, 0, 1, 0)] + ([] if quick else [(2, 1, 1, 1), (1, 2, 2, 0), (0, 0, 0, 1), (2, 2, 0, 0)])):
